@@ -24,8 +24,13 @@ func runFmt(w *out.W, tier, dial string) {
 			if modelled[o.name] {
 				w.Case(id, o.name+" "+showType(g.t), r.lines())
 			} else {
-				// no Coq model of this dialect's FormatType/ParseType yet: property oracle only
-				w.ImplOnly(id, o.name+" "+showType(g.t)+" => "+fmt.Sprint(r.lines()))
+				// PostgreSQL: only FormatType has a Coq model (Hcl/TypesPg.v); ParseType and the
+				// registry path are covered by the property oracle below.
+				f := "fmt=" + r.fmtSt
+				if r.fmtSt == "ok" {
+					f += ":" + hx(r.fmtS)
+				}
+				w.Case(id, o.name+" "+showType(g.t), []string{f})
 			}
 			w.Count(o.name + "/" + g.origin)
 			w.Count("fmt/" + r.fmtSt)
